@@ -1194,7 +1194,7 @@ def correspond(ctx):
     prep, where = [], []
     for gi, g in enumerate(graphs[:ctx.scale(40, 400)]):
         for ci, c in enumerate(g["cases"]):
-            if c["aliases"] or c["text"].endswith("/"):
+            if (c["aliases"] or c["text"].endswith("/")) and c["extra_mode"] in c["modes"]:
                 prep.append({"op": "prep", "aliases": c["aliases"], "path": c["text"]})
                 where.append((gi, ci))
     if prep:
